@@ -56,6 +56,14 @@ class Elf:
                 return out
         return None
 
+    def dynsym_names(self):
+        """names in .dynsym (never consulted by goom; used to ask for names that must stay unknown in stripped builds)"""
+        for s in self.sections:
+            if s['type'] == 11:
+                strs = self.sections[s['link']]
+                return [self.cstr(strs['off'] + struct.unpack_from('<I', self.d, s['off'] + 24 * i)[0]) for i in range(1, s['size'] // 24)]
+        return []
+
     def pclntab(self):
         """[(name, entry offset from text start)] of `.gopclntab`, None when there is no such section"""
         s = self.section(b'.gopclntab')
@@ -69,7 +77,7 @@ class Elf:
             return 'bad'            # section data not in the file: (*Section).Data fails
         magic, = struct.unpack_from('<I', d, base)
         if magic not in (0xfffffff0, 0xfffffff1) or d[base + 7] != 8:
-            raise ValueError('unsupported pclntab %#x' % magic)
+            return []                # debug/gosym does not recognise the table: no functions, no error
         nfunc, nfiles, text_start, funcname_off, cu_off, filetab_off, pctab_off, pcln_off = struct.unpack_from('<8Q', d, base + 8)
         ft = base + pcln_off
         out = []
@@ -82,8 +90,12 @@ class Elf:
     def describe(self):
         """The abstract file of Model/Sym.lean: text address, pclntab entries, ELF symbols."""
         t = self.section(b'.text')
-        return {'text': None if t is None else t['addr'], 'pcln': self.pclntab(), 'syms': None if self.symtab() is None else
-                [(s['name'], s['value']) for s in self.symtab()]}
+        st = self.symtab()
+        return {'text': None if t is None else t['addr'], 'pcln': self.pclntab(), 'syms': None if st is None else
+                [(s['name'], s['value']) for s in st],
+                # does the entry name a place in the image?  not: undefined references, FILE / SECTION markers, TLS offsets
+                'symaddr': None if st is None else [s['shndx'] != 0 and (s['info'] & 0xf) not in (3, 4, 6) for s in st],
+                'dynsym_names': self.dynsym_names()}
 
     # ---- patching (section headers and .symtab are not used by the kernel loader or the Go runtime: the result still runs)
     def set_text_addr(self, addr):
@@ -117,6 +129,10 @@ class Elf:
         s = self.section(name)
         struct.pack_into('<Q', self.d, s['hdr'] + 0x18, off)
 
+    def poke_section(self, name, off, value):
+        s = self.section(name)
+        self.d[s['off'] + off] = value
+
     def set_shoff(self, off):
         struct.pack_into('<Q', self.d, 0x28, off)
 
@@ -129,6 +145,6 @@ def describe_bytes(data):
     try:
         d = Elf(data).describe()
     except (ValueError, struct.error, IndexError):
-        return {'elf': False, 'text': None, 'pcln': None, 'syms': None}
+        return {'elf': False, 'text': None, 'pcln': None, 'syms': None, 'symaddr': None, 'dynsym_names': []}
     d['elf'] = True
     return d
